@@ -100,6 +100,48 @@ Theorem C17_sim_remembers : forall (s : sim_state) d,
   get_distance (set_distance c e lo hi s d) = d.
 Proof. exact (sim_remembers c e lo hi fl Hadm). Qed.
 
+(* ---- the reading depends on the pin voltage and on nothing else -------- *)
+(* [rio] is the whole simulated roboRIO: the sensor's pin, the 5 V / 3.3 V /
+   6 V user rails, the battery, the rail enable flags, currents, brownout
+   threshold, CPU temperature (any non-NaN double each).  getDistance() on it
+   is [rio_distance_opt] ([None] = an exception). *)
+
+(* whatever the rails are (sagging, 0 V, negative, infinite, switched off):
+   no exception, and the value is the pin-only reading of the theorems above *)
+Theorem C17_rio_reading : forall r : rio,
+  rio_distance_opt c e lo hi fl r = Some (reading_x c e lo hi fl (pin r)).
+Proof. exact (rio_total c e lo hi fl Hadm). Qed.
+
+(* two roboRIOs with the same pin voltage give the same outcome *)
+Theorem C17_rio_pin_only : forall r1 r2 : rio,
+  pin r1 = pin r2 ->
+  rio_distance_opt c e lo hi fl r1 = rio_distance_opt c e lo hi fl r2.
+Proof. exact (rio_pin_only c e lo hi fl Hadm). Qed.
+
+Theorem C17_rio_in_range : forall r : rio,
+  exists x, rio_distance_opt c e lo hi fl r = Some x /\ lo <= x <= hi.
+Proof. exact (rio_in_range c e lo hi fl Hadm). Qed.
+
+(* monotone in the pin voltage even when everything else changes between the
+   two readings *)
+Theorem C17_rio_antitone : forall r1 r2 : rio,
+  xle (pin r1) (pin r2) ->
+  rio_distance c e lo hi fl r2 <= rio_distance c e lo hi fl r1.
+Proof. exact (rio_antitone c e lo hi fl Hadm). Qed.
+
+Theorem C17_rio_power_law : forall (r : rio) v,
+  pin r = Fin v -> fl <= v -> lo <= c * Rpower v e <= hi ->
+  rio_distance_opt c e lo hi fl r = Some (c * Rpower v e).
+Proof. exact (rio_power_law c e lo hi fl Hadm). Qed.
+
+(* the helper on any roboRIO: the sensor reads d clamped (d = +-inf
+   included) and nothing but the pin has changed *)
+Theorem C17_rio_sim : forall (r : rio) (d : xreal),
+  fl <= volts c e lo hi hi ->
+  rio_distance_opt c e lo hi fl (rio_set_distance c e lo hi r d) = Some (clamp_x lo hi d) /\
+  same_rails (rio_set_distance c e lo hi r d) r.
+Proof. exact (rio_sim c e lo hi fl Hadm). Qed.
+
 End C17.
 
 (* ====================================================================== *)
@@ -144,6 +186,21 @@ Proof.
                          (sim_sensor _ _ _ _ _ A02_admissible s d A02_floor_below_sim)).
 Qed.
 
+(* on every simulated roboRIO -- any 5 V / 3.3 V / 6 V rail, battery, enable
+   flags -- the driver returns a distance in range, follows the power law of
+   the PIN voltage, and reads d clamped after the helper's setDistance(d) *)
+Theorem C17_A02_any_rails : forall r : rio,
+  (exists x, rio_distance_opt 62.28 (-1.092) 22.5 145 0.00001 r = Some x /\ 22.5 <= x <= 145) /\
+  (forall v, pin r = Fin v -> 0.00001 <= v -> 22.5 <= 62.28 * Rpower v (-1.092) <= 145 ->
+     rio_distance_opt 62.28 (-1.092) 22.5 145 0.00001 r = Some (62.28 * Rpower v (-1.092))) /\
+  (forall d, rio_distance_opt 62.28 (-1.092) 22.5 145 0.00001 (rio_set_distance 62.28 (-1.092) 22.5 145 r (Fin d))
+             = Some (Rmax (Rmin d 145) 22.5)).
+Proof.
+  exact (fun r => conj (rio_in_range _ _ _ _ _ A02_admissible r)
+        (conj (rio_power_law _ _ _ _ _ A02_admissible r)
+              (fun d => proj1 (rio_sim _ _ _ _ _ A02_admissible r (Fin d) A02_floor_below_sim)))).
+Qed.
+
 (* ====================================================================== *)
 (* Part 3: SharpIR2Y0A21 -- 26.449 * V ^ -1.226, 10 .. 80 cm              *)
 (* ====================================================================== *)
@@ -184,6 +241,21 @@ Theorem C17_A21_sim_remembers : forall (s : sim_state) d,
 Proof.
   exact (fun s d => conj (sim_remembers _ _ _ _ _ A21_admissible s d)
                          (sim_sensor _ _ _ _ _ A21_admissible s d A21_floor_below_sim)).
+Qed.
+
+(* on every simulated roboRIO -- any 5 V / 3.3 V / 6 V rail, battery, enable
+   flags -- the driver returns a distance in range, follows the power law of
+   the PIN voltage, and reads d clamped after the helper's setDistance(d) *)
+Theorem C17_A21_any_rails : forall r : rio,
+  (exists x, rio_distance_opt 26.449 (-1.226) 10 80 0.00001 r = Some x /\ 10 <= x <= 80) /\
+  (forall v, pin r = Fin v -> 0.00001 <= v -> 10 <= 26.449 * Rpower v (-1.226) <= 80 ->
+     rio_distance_opt 26.449 (-1.226) 10 80 0.00001 r = Some (26.449 * Rpower v (-1.226))) /\
+  (forall d, rio_distance_opt 26.449 (-1.226) 10 80 0.00001 (rio_set_distance 26.449 (-1.226) 10 80 r (Fin d))
+             = Some (Rmax (Rmin d 80) 10)).
+Proof.
+  exact (fun r => conj (rio_in_range _ _ _ _ _ A21_admissible r)
+        (conj (rio_power_law _ _ _ _ _ A21_admissible r)
+              (fun d => proj1 (rio_sim _ _ _ _ _ A21_admissible r (Fin d) A21_floor_below_sim)))).
 Qed.
 
 (* ====================================================================== *)
@@ -228,6 +300,21 @@ Proof.
                          (sim_sensor _ _ _ _ _ A41_admissible s d A41_floor_below_sim)).
 Qed.
 
+(* on every simulated roboRIO -- any 5 V / 3.3 V / 6 V rail, battery, enable
+   flags -- the driver returns a distance in range, follows the power law of
+   the PIN voltage, and reads d clamped after the helper's setDistance(d) *)
+Theorem C17_A41_any_rails : forall r : rio,
+  (exists x, rio_distance_opt 12.84 (-0.9824) 4.5 35 0.00001 r = Some x /\ 4.5 <= x <= 35) /\
+  (forall v, pin r = Fin v -> 0.00001 <= v -> 4.5 <= 12.84 * Rpower v (-0.9824) <= 35 ->
+     rio_distance_opt 12.84 (-0.9824) 4.5 35 0.00001 r = Some (12.84 * Rpower v (-0.9824))) /\
+  (forall d, rio_distance_opt 12.84 (-0.9824) 4.5 35 0.00001 (rio_set_distance 12.84 (-0.9824) 4.5 35 r (Fin d))
+             = Some (Rmax (Rmin d 35) 4.5)).
+Proof.
+  exact (fun r => conj (rio_in_range _ _ _ _ _ A41_admissible r)
+        (conj (rio_power_law _ _ _ _ _ A41_admissible r)
+              (fun d => proj1 (rio_sim _ _ _ _ _ A41_admissible r (Fin d) A41_floor_below_sim)))).
+Qed.
+
 (* ====================================================================== *)
 (* Non-vacuity                                                            *)
 (* ====================================================================== *)
@@ -263,6 +350,18 @@ Example C17_nv_sim :
    reading_A41 (volts_A41 10) = 10 /\ reading_A41 (volts_A41 25) = 25).
 Proof. exact (conj A02_sim_examples (conj A21_sim_examples A41_sim_examples)). Qed.
 
+(* the rail theorems are about roboRIOs that really differ: 1 V on the pin
+   reads 26.449 cm with the 5 V rail sagging to 4.6 V and with the rail at
+   0 V and switched off *)
+Example C17_nv_rio :
+  rio_distance_opt 26.449 (-1.226) 10 80 0.00001
+    {| pin := Fin 1; user5V := Fin 4.6; user3V3 := Fin 3.3; user6V := Fin 6; vin := Fin 12;
+       active5V := true; active3V3 := true; active6V := true; aux := nil |} = Some 26.449 /\
+  rio_distance_opt 26.449 (-1.226) 10 80 0.00001
+    {| pin := Fin 1; user5V := Fin 0; user3V3 := PInf; user6V := NInf; vin := Fin 6.3;
+       active5V := false; active3V3 := true; active6V := false; aux := Fin 0 :: nil |} = Some 26.449.
+Proof. exact (conj (A21_rio_at_1V _ _ _ _ _ _ _ _) (A21_rio_at_1V _ _ _ _ _ _ _ _)). Qed.
+
 Print Assumptions C17_no_exception.
 Print Assumptions C17_in_range.
 Print Assumptions C17_antitone.
@@ -275,21 +374,30 @@ Print Assumptions C17_sim_inverse.
 Print Assumptions C17_sim_inverse_inf.
 Print Assumptions C17_sim_sensor.
 Print Assumptions C17_sim_remembers.
+Print Assumptions C17_rio_reading.
+Print Assumptions C17_rio_pin_only.
+Print Assumptions C17_rio_in_range.
+Print Assumptions C17_rio_antitone.
+Print Assumptions C17_rio_power_law.
+Print Assumptions C17_rio_sim.
 Print Assumptions C17_A02_in_range.
 Print Assumptions C17_A02_antitone.
 Print Assumptions C17_A02_power_law.
 Print Assumptions C17_A02_edge_voltages.
 Print Assumptions C17_A02_sim_inverse.
 Print Assumptions C17_A02_sim_remembers.
+Print Assumptions C17_A02_any_rails.
 Print Assumptions C17_A21_in_range.
 Print Assumptions C17_A21_antitone.
 Print Assumptions C17_A21_power_law.
 Print Assumptions C17_A21_edge_voltages.
 Print Assumptions C17_A21_sim_inverse.
 Print Assumptions C17_A21_sim_remembers.
+Print Assumptions C17_A21_any_rails.
 Print Assumptions C17_A41_in_range.
 Print Assumptions C17_A41_antitone.
 Print Assumptions C17_A41_power_law.
 Print Assumptions C17_A41_edge_voltages.
 Print Assumptions C17_A41_sim_inverse.
 Print Assumptions C17_A41_sim_remembers.
+Print Assumptions C17_A41_any_rails.
